@@ -8,6 +8,7 @@ package c04
 
 import (
 	"bytes"
+	"crypto"
 	"fmt"
 	"sort"
 	"sync"
@@ -26,6 +27,7 @@ type scheme struct {
 	pkSize, skSize, sigSize int
 	derive                  func(seed []byte) (pk, sk interface{}, pkb, skb []byte)
 	signTo                  func(sk interface{}, msg, ctx []byte) ([]byte, error)
+	signInto                func(sk interface{}, msg, ctx, dst []byte) error // SignTo into a caller-supplied buffer
 	verify                  func(pk interface{}, msg, ctx, sig []byte) bool
 	unpackPK                func(b []byte) interface{}
 	unpackSK                func(b []byte) interface{}
@@ -226,7 +228,7 @@ func TestC04Transcript(t *testing.T) {
 						return
 					}
 				}
-				switch rapid.IntRange(0, 3).Draw(t, "extra") {
+				switch rapid.IntRange(0, 4).Draw(t, "extra") {
 				case 0:
 					// keys rebuilt from bytes
 					sk2 := s.unpackSK(h.skb)
@@ -263,6 +265,15 @@ func TestC04Transcript(t *testing.T) {
 								return
 							}
 						}
+						if len(ctx) == 0 {
+							// crypto.Signer interface (no context, deterministic)
+							sig5, err := h.sk.(crypto.Signer).Sign(nil, msg, crypto.Hash(0))
+							if err != nil || !bytes.Equal(sig5, h.sig) {
+								if vlib.Report(t, "C04/sign/"+s.name+"/crypto-signer", fmt.Sprintf("seed %x: PrivateKey.Sign differs at %d (err=%v)", seed, firstDiff(sig5, h.sig), err)) {
+									return
+								}
+							}
+						}
 						pk4, sk4 := s.sch.DeriveKey(seed)
 						b4, _ := pk4.MarshalBinary()
 						k4, _ := sk4.MarshalBinary()
@@ -273,6 +284,47 @@ func TestC04Transcript(t *testing.T) {
 						}
 						vlib.Class(sub, "scheme-api")
 					}
+				case 3:
+					// SignTo into a destination that is longer than SignatureSize ("will panic if signature is not
+					// of length at least SignatureSize") and already holds data: the first SignatureSize bytes are
+					// the signature, the surplus is left alone.
+					extraLen := rapid.SampledFrom([]int{1, 2, 7, 16, 64, 100, s.sigSize}).Draw(t, "surplus")
+					dst := make([]byte, s.sigSize+extraLen)
+					fill := rapid.SampledFrom([]string{"00", "ff", "previous-signature", "random"}).Draw(t, "prefill")
+					switch fill {
+					case "ff":
+						for i := range dst {
+							dst[i] = 0xff
+						}
+					case "previous-signature":
+						other, _ := s.signTo(h.sk, append([]byte{1}, msg...), ctx)
+						copy(dst, other)
+						copy(dst[s.sigSize:], other)
+					case "random":
+						vlib.FillRandom(t, dst, "prefill")
+					}
+					before := append([]byte{}, dst...)
+					var err error
+					if pn, st := vlib.Catch(func() { err = s.signInto(h.sk, msg, ctx, dst) }); pn != nil {
+						vlib.Report(t, "C04/panic/"+s.name+"/SignTo-long-buffer/"+vlib.PanicClass(pn), fmt.Sprintf("seed %x surplus %d: %v\n%s", seed, extraLen, pn, st))
+						return
+					}
+					if err != nil || !bytes.Equal(dst[:s.sigSize], h.sig) {
+						if vlib.Report(t, "C04/sign/"+s.name+"/long-buffer", fmt.Sprintf("seed %x msg %s: SignTo into a %d-byte buffer (prefill %s): err=%v, first SignatureSize bytes differ from the specification at %d", seed, vlib.Hex(msg), len(dst), fill, err, firstDiff(dst[:s.sigSize], h.sig))) {
+							return
+						}
+					}
+					if !bytes.Equal(dst[s.sigSize:], before[s.sigSize:]) {
+						if vlib.Report(t, "C04/sign/"+s.name+"/long-buffer-surplus", fmt.Sprintf("seed %x: SignTo changed the bytes after SignatureSize (prefill %s, first change at +%d)", seed, fill, firstDiff(dst[s.sigSize:], before[s.sigSize:]))) {
+							return
+						}
+					}
+					if !s.verify(h.pk, msg, ctx, dst[:s.sigSize]) {
+						if vlib.Report(t, "C04/verify-verdict/"+s.name+"/long-buffer", fmt.Sprintf("seed %x: signature written into a longer buffer is rejected", seed)) {
+							return
+						}
+					}
+					vlib.Class(sub, "long-destination/"+fill)
 				case 2:
 					if s.ctx {
 						// over-long context: FIPS 204 Algorithm 2/3 return ⊥; documented as error / false
@@ -778,6 +830,50 @@ func TestC04Concurrent(t *testing.T) {
 		}
 	}
 	wg.Wait()
+	// Phase 2: key objects that were *just* decoded are shared: in every round the main goroutine unpacks a
+	// public and a private key per scheme, then all workers start at a barrier and use the shared objects as
+	// their first operation (first Verify of a fresh public key, first SignTo / Public of a fresh private key).
+	rounds := vlib.N(40, 300)
+	for round := 0; round < rounds; round++ {
+		start := make(chan struct{})
+		for _, s := range schemes {
+			r := recs[s.name][round%nrec]
+			pkS, skS := s.unpackPK(r.pkb), s.unpackSK(r.skb)
+			other := append([]byte{0xff}, r.msg...)
+			for g := 0; g < workers; g++ {
+				wg.Add(1)
+				go func(s *scheme, g int) {
+					defer wg.Done()
+					<-start
+					if pn, st := vlib.Catch(func() {
+						if g%2 == 0 {
+							if !s.verify(pkS, r.msg, nil, r.sig) {
+								fail("C04/concurrent/"+s.name+"/verify-shared-fresh-pk", fmt.Sprintf("seed %x: valid signature rejected when %d goroutines verify with a freshly unpacked public key", r.seed, workers))
+							}
+							if s.verify(pkS, other, nil, r.sig) {
+								fail("C04/concurrent/"+s.name+"/verify-shared-fresh-pk", fmt.Sprintf("seed %x: signature accepted for another message", r.seed))
+							}
+						} else {
+							sig, err := s.signTo(skS, r.msg, nil)
+							if err != nil || !bytes.Equal(sig, r.sig) {
+								fail("C04/concurrent/"+s.name+"/sign-shared-fresh-sk", fmt.Sprintf("seed %x: signature differs from the specification when goroutines share a freshly unpacked private key (err=%v)", r.seed, err))
+							}
+							if !bytes.Equal(s.public(skS), r.pkb) {
+								fail("C04/concurrent/"+s.name+"/public-shared-fresh-sk", fmt.Sprintf("seed %x: sk.Public() differs from pk under concurrency", r.seed))
+							}
+							if !s.verify(pkS, r.msg, nil, r.sig) {
+								fail("C04/concurrent/"+s.name+"/verify-shared-fresh-pk", fmt.Sprintf("seed %x: valid signature rejected when goroutines share a freshly unpacked public key", r.seed))
+							}
+						}
+					}); pn != nil {
+						fail("C04/concurrent/"+s.name+"/panic/"+vlib.PanicClass(pn), fmt.Sprintf("%v\n%s", pn, st))
+					}
+				}(s, g)
+			}
+		}
+		close(start)
+		wg.Wait()
+	}
 	keys := make([]string, 0, len(failures))
 	for k := range failures {
 		keys = append(keys, k)
@@ -785,7 +881,7 @@ func TestC04Concurrent(t *testing.T) {
 	sort.Strings(keys)
 	for _, s := range schemes {
 		sub := "concurrent/" + s.name
-		vlib.EvalN(sub, int64(workers*iters))
+		vlib.EvalN(sub, int64(workers*iters+workers*rounds))
 		for _, r := range recs[s.name] {
 			vlib.NonTrivial(sub, "record", r.seed, r.msg)
 		}
